@@ -17,6 +17,12 @@ func (P *Program) nonNilGlobal(g *ssa.Global) bool {
 	if g.Pkg == nil {
 		return false
 	}
+	// standard-library sentinel errors (bodies not loaded): non-nil by documentation (assumption)
+	switch g.Pkg.Pkg.Path() + "." + g.Name() {
+	case "context.Canceled", "context.DeadlineExceeded", "io.EOF", "io.ErrUnexpectedEOF", "io.ErrShortWrite",
+		"os.ErrNotExist", "os.ErrExist", "database/sql.ErrNoRows", "io/fs.ErrNotExist":
+		return true
+	}
 	if _, isI := g.Type().Underlying().(*types.Pointer).Elem().Underlying().(*types.Interface); !isI {
 		return false
 	}
